@@ -25,7 +25,7 @@ func init() {
 		Run:         runC08,
 	}
 	Registry["C09"] = Set{
-		Explanation: "Decides structural clauses of the restart intensity limit: I1 units — the window test subtracts two values of the same clock unit and compares with the period multiplied by that unit's per-second factor; I2 comparison normal form — 'exceeded' is returned true only under len(restarts) > intensity (or an equivalent form) evaluated after the pruning loop, the early 'not exceeded' return is under len <= intensity, the pruning drops only from the old end and only entries whose age is strictly greater than the period, and the current restart is recorded before counting; I3 plumbing — each of the three callers passes its own restart list, its Period and its Intensity in that order, stores the returned list back, starts the child on the not-exceeded edge and on the exceeded edge terminates the children with ErrSupervisorRestartsExceeded.",
+		Explanation: "Decides structural clauses of the restart intensity limit: I1 units — the window test subtracts two values of the same clock unit and compares with the period multiplied by that unit's per-second factor; I2 comparison normal form — 'exceeded' is returned true only under len(restarts) > intensity (or an equivalent form) evaluated after the pruning loop, the early 'not exceeded' return is under len <= intensity, the pruning drops only from the old end and only entries whose age is strictly greater than the period, and the current restart is recorded before counting; I3 plumbing — each of the three callers passes its own restart list, its Period and its Intensity in that order, stores the returned list back, starts the child on the not-exceeded edge and on the exceeded edge terminates the children with ErrSupervisorRestartsExceeded. Added while probing: a 'not exceeded' return is dominated by len(restarts) <= intensity, and the count is never compared with intensity±k.",
 		NotDecided: []string{
 			"the behaviour over timing patterns (runtime clock values)",
 			"clock jumps",
